@@ -88,17 +88,26 @@ Verdict judge(const Case& c) {
   all.insert(all.end(), clip.begin(), clip.end());
   v.nontrivial = degenerate(all);
 
+  int route = (int)c.I("route", 0);
+  ST.count("route_" + std::to_string(route));
   static const ClipType cts[] = {ClipType::Intersection, ClipType::Union, ClipType::Difference, ClipType::Xor};
   static const FillRule frs[] = {FillRule::EvenOdd, FillRule::NonZero, FillRule::Positive, FillRule::Negative};
   for (ClipType ct : cts)
     for (FillRule fr : frs)
       for (int pc = 0; pc < 2; ++pc) {
-        Clipper64 cl;
-        cl.PreserveCollinear(pc != 0);
-        cl.AddSubject(subj);
-        cl.AddClip(clip);
+        // route (per case): 0 Execute into Paths64, 1 Execute into a PolyTree64 (flattened), 2 the free function BooleanOp
+        // (default options, i.e. only when PreserveCollinear is on)
         Paths64 sol;
-        bool ok = cl.Execute(ct, fr, sol);
+        bool ok = true;
+        if (route == 2 && pc != 0) sol = BooleanOp(ct, fr, subj, clip);
+        else {
+          Clipper64 cl;
+          cl.PreserveCollinear(pc != 0);
+          cl.AddSubject(subj);
+          cl.AddClip(clip);
+          if (route == 1) { PolyTree64 t; ok = cl.Execute(ct, fr, t); sol = PolyTreeToPaths64(t); }
+          else ok = cl.Execute(ct, fr, sol);
+        }
         v.evals++;
         std::string cfg = std::string(" [") + O::ctName(ct) + "," + O::frName(fr) + ",pc=" + std::to_string(pc) + "]";
         if (!ok) { v.fail("Execute returned false" + cfg); return v; }
@@ -137,6 +146,7 @@ Case genRandom() {
   Case c;
   c.p["subj"] = GEN::rectPaths(L, 1, 3);
   c.p["clip"] = GEN::rectPaths(L, 0, 3);
+  c.i["route"] = G::chance(60) ? 0 : G::range(1, 2);
   ST.count(std::string("step_") + (L.step >= (int64_t(1) << 40) ? "huge" : L.step >= 1000 ? "large" : "small"));
   return c;
 }
